@@ -61,6 +61,13 @@ class Inst:
         return [((len(b) + 1) << 16) | self.opcode] + b
 
 
+def some_version(rnd):
+    """a version word 0x00MMmm00: the released versions 1.0-1.6 most of the time, otherwise any major / minor byte"""
+    if rnd.random() < 0.6:
+        return 0x00010000 | (rnd.randrange(7) << 8)
+    return (rnd.choice([0, 1, 2, 15, 16, 127, 128, 255, rnd.randrange(256)]) << 16) | (rnd.choice([0, 7, 15, 16, 17, 31, 32, 128, 255, rnd.randrange(256)]) << 8)
+
+
 def header(version=0x00010600, bound=100, generator=0x000f0000, schema=0):
     return [MAGIC, version, generator, bound, schema]
 
